@@ -6,6 +6,12 @@ use vcommon::sweep::Outcome;
 pub mod c01;
 pub mod c02;
 pub mod c03;
+pub mod c04;
+pub mod c09;
+pub mod c18;
+pub mod c20;
+pub mod c19;
+pub mod c06;
 
 pub fn flag_names(prop: &str) -> Vec<&'static str> {
     let mut v: Vec<&'static str> = BASE_FLAG_NAMES.to_vec();
@@ -13,6 +19,12 @@ pub fn flag_names(prop: &str) -> Vec<&'static str> {
         "C01" => &c01::EXTRA_FLAGS,
         "C02" => &c02::EXTRA_FLAGS,
         "C03" => &c03::EXTRA_FLAGS,
+        "C04" => &c04::EXTRA_FLAGS,
+        "C09" => &c09::EXTRA_FLAGS,
+        "C18" => &c18::EXTRA_FLAGS,
+        "C20" => &c20::EXTRA_FLAGS,
+        "C19" => &c19::EXTRA_FLAGS,
+        "C06" => &c06::EXTRA_FLAGS,
         _ => &[],
     };
     v.extend_from_slice(extra);
@@ -25,6 +37,12 @@ pub fn plan(prop: &str, tier: &str) -> Vec<Part> {
         "C01" => c01::plan(q),
         "C02" => c02::plan(q),
         "C03" => c03::plan(q),
+        "C04" => c04::plan(q),
+        "C09" => c09::plan(q),
+        "C18" => c18::plan(q),
+        "C20" => c20::plan(q),
+        "C19" => c19::plan(q),
+        "C06" => c06::plan(q),
         _ => vec![],
     }
 }
@@ -34,7 +52,23 @@ pub fn run_case(c: &GCase) -> Outcome {
         "C01" => vglue::with_kmer!(c.k, K => c01::run::<K>(c)),
         "C02" => vglue::with_kmer!(c.k, K => c02::run::<K>(c)),
         "C03" => vglue::with_kmer!(c.k, K => c03::run::<K>(c)),
+        "C04" => vglue::with_kmer!(c.k, K => c04::run::<K>(c)),
+        "C09" => vglue::with_kmer!(c.k, K => c09::run::<K>(c)),
+        "C18" => vglue::with_kmer!(c.k, K => c18::run::<K>(c)),
+        "C20" => vglue::with_kmer!(c.k, K => c20::run::<K>(c)),
+        "C19" => vglue::with_kmer!(c.k, K => c19::run::<K>(c)),
+        "C06" => vglue::with_kmer!(c.k, K => c06::run::<K>(c)),
         p => panic!("no such property {}", p),
+    }
+}
+
+/// non-sweep engines (E2 searches, native runs) of a property
+pub fn extra(prop: &str, tier: &str, rep: &mut Report) {
+    match prop {
+        "C18" => c18::extra(tier, rep),
+        "C20" => c20::extra(tier, rep),
+        "C19" => c19::extra(tier, rep),
+        _ => {}
     }
 }
 
@@ -43,6 +77,12 @@ pub fn finalize(prop: &str, tier: &str, rep: &mut Report) {
         "C01" => c01::finalize(tier, rep),
         "C02" => c02::finalize(tier, rep),
         "C03" => c03::finalize(tier, rep),
+        "C04" => c04::finalize(tier, rep),
+        "C09" => c09::finalize(tier, rep),
+        "C18" => c18::finalize(tier, rep),
+        "C20" => c20::finalize(tier, rep),
+        "C19" => c19::finalize(tier, rep),
+        "C06" => c06::finalize(tier, rep),
         _ => {}
     }
 }
